@@ -133,7 +133,7 @@ def process(ck, designs, n_ext, ncycles):
 
 def run(ck):
   ck.rejected = []
-  n = 60 if ck.tier == 'quick' else 3000
+  n = 200 if ck.tier == 'quick' else 3000
   n_ext = 3 if ck.tier == 'quick' else 8
   done = 0
   while done < n:
